@@ -131,7 +131,9 @@ def _mode(stmts, lagrange_attr_hint, where, reset_targets=()):
         if isinstance(s, ast.If) and _contains_call(s, "self", "Need_Update"):
             body_ok = _raises(s.body) and not s.orelse
             test = _src(s.test)
-            lag_test = lagrange_attr_hint in test and ("len(" in test or test.startswith("self.")) and " not " not in (" " + test) and "== 0" not in test
+            lists = ["self.__%s" % lagrange_attr_hint, "self.%s" % lagrange_attr_hint]
+            accepted = [x for l in lists for x in (l, "len(%s) > 0" % l, "len(%s) >= 1" % l, "len(%s) != 0" % l, "0 < len(%s)" % l)]
+            lag_test = test in accepted
             if body_ok and lag_test and i < first_reset:
                 return "NIfLag"
             raise TranslateError("%s: Need_Update under a guard the translator cannot classify: `if %s`" % (where, test))
@@ -305,8 +307,9 @@ def derive(repo):
 
     rho_desc = None
     for s in S.body:
-        if isinstance(s, ast.Assign) and _src(s.targets[0]) == "rho" and isinstance(s.value, ast.Call):
-            rho_desc = (_src(s.value.func).split(".")[-1], s)
+        if isinstance(s, (ast.Assign, ast.AnnAssign)) and _src(s.targets[0] if isinstance(s, ast.Assign) else s.target) == "rho":
+            v = s.value
+            rho_desc = (_src(v.func).split(".")[-1] if isinstance(v, ast.Call) else "<not a descriptor>", s)
     if rho_desc is None:
         raise TranslateError("%s: _Simu.rho is not a class-level descriptor" % rel)
     note("t_rho_need", rho_desc[0] in param_classes and simu_updatable and F["t_param_need"], rel, rho_desc[1])
